@@ -222,6 +222,10 @@ class PedFilter(SubCheck):
         try:
             hom_positions, table = phase.find_phaseable_variants(members, include_hom, trios, vt)
         except Exception as ex:
+            if isinstance(ex, TypeError) and ("argument" in str(ex) or "positional" in str(ex)):
+                from vf.pysym.engine import Unsupported
+
+                raise Unsupported("find_phaseable_variants no longer has the interface this unit harness drives (%s); the run_whatshap-level sub-check ped_genetic does not depend on it" % ex)
             e.check(False, "find_phaseable_variants raised %s on a family with conflicting/missing genotypes instead of leaving the variant unphased" % type(ex).__name__, lambda: dict(genotypes=cls))
             return
         kept = [v.position for v in table.variants]
@@ -500,7 +504,7 @@ class PedGenetic(SubCheck):
              "Pedigree / PedigreeDPTable: contract stub returning super reads that carry an allele at every position they were given (justified by ped_mendel for read-less columns) and a constant transmission vector",
              "PhasedVcfWriter: records (super reads, components) - that a variant present in both with a heterozygous genotype gets phased is C04's claim", "open: in-memory PED file; whatshap.core data classes: vf/models/core_model.py, compiled module in the replay"]
     assumptions = ["default options of `whatshap phase --ped` (genetic haplotyping on, genotypes trusted, homozygous variants not included)", "trio father/mother/child listed in the PED file; diploid biallelic called genotypes"]
-    required_cover = ["no read at all on the chromosome", "read-less variant with a homozygous parent", "exactly one variant homozygous in a family member", "two such variants", "variant covered by a read", "Mendelian conflict variant present"]
+    required_cover = ["no read at all on the chromosome", "read-less variant with a homozygous parent", "exactly one variant homozygous in a family member", "two such variants", "variant covered by a read", "Mendelian conflict variant present", "two families in one run", "variant consistent in one family, conflicting in the other"]
     hash_mode = "concretise"
 
     # representative family rows (father, mother, child) for the longer shapes
@@ -510,6 +514,8 @@ class PedGenetic(SubCheck):
         out = [dict(nvar=1, rows="all")]
         out += [dict(nvar=2, rows="all", first=list(r)) for r in itertools.product(["0/0", "0/1", "1/1"], repeat=3)]
         out += [dict(nvar=3, rows="representative", first=list(r)) for r in self.ROWS]
+        # a second, unrelated trio in the same VCF / PED: what one family's genotypes look like must not matter to the other
+        out += [dict(nvar=n, rows="representative", first=list(r), fam2=True) for n in (1, 2) for r in self.ROWS]
         if tier != "quick":
             out += [dict(nvar=4, rows="representative", first=list(r), second=list(r2)) for r in self.ROWS for r2 in self.ROWS]
         return out
@@ -530,7 +536,11 @@ class PedGenetic(SubCheck):
 
         phase, vcf, core = impl["phase"], impl["vcf"], impl["core"]
         real = impl is self.real
-        members = ["f", "m", "c"]
+        fam2 = bool(shape.get("fam2"))
+        members = ["f", "m", "c"] + (["f2", "m2", "c2"] if fam2 else [])
+        families = [("f", "m", "c")] + ([("f2", "m2", "c2")] if fam2 else [])
+        if fam2:
+            e.cover("two families in one run")
         nvar = shape["nvar"]
         positions = [100 * (v + 1) for v in range(nvar)]
         GT = {"0/0": [0, 0], "0/1": [0, 1], "1/1": [1, 1]}
@@ -543,11 +553,13 @@ class PedGenetic(SubCheck):
                 rows.append({s: e.choice("gt_%d_%s" % (v, s), sorted(GT)) for s in members})
             else:
                 rows.append(dict(zip(members, e.choice("row_%d" % v, self.ROWS))))
+            if fam2:
+                rows[-1].update(zip(("f2", "m2", "c2"), e.choice("row2_%d" % v, self.ROWS)))
         vt = vcf.VariantTable("chr1", members)
         for v in range(nvar):
-            vt.add_variant(vcf.BiallelicVcfVariant(positions[v], "A", "C"), [core.Genotype(GT[rows[v][s]]) for s in members], [None] * 3, [None] * 3, [None] * 3)
-        pats = {s: e.choice("reads_%s" % s, ["none", "all", "first two"]) for s in members}
-        seen = dict(dp_positions=None, components=None, superreads=None)
+            vt.add_variant(vcf.BiallelicVcfVariant(positions[v], "A", "C"), [core.Genotype(GT[rows[v][s]]) for s in members], [None] * len(members), [None] * len(members), [None] * len(members))
+        pats = {s: (e.choice("reads_%s" % s, ["none", "all", "first two"]) if not fam2 else "none") for s in members}
+        seen = dict(dp_positions=None, components=None, superreads=None, dp={})
 
         class VcfReaderStub:
             def __init__(s2, *a, **k):
@@ -573,8 +585,8 @@ class PedGenetic(SubCheck):
                 return None
 
             def write(s2, chromosome, superreads, components):
-                seen["components"] = {s: dict(c) for s, c in components.items()}
-                seen["superreads"] = {s: sorted(v.position for v in rs[0]) for s, rs in superreads.items()}
+                seen["components"] = dict(seen["components"] or {}, **{s: dict(c) for s, c in components.items()})
+                seen["superreads"] = dict(seen["superreads"] or {}, **{s: sorted(v.position for v in rs[0]) for s, rs in superreads.items()})
                 return []
 
             def write_unchanged(s2, chromosome):
@@ -621,6 +633,8 @@ class PedGenetic(SubCheck):
             def __init__(s2, all_reads, recomb, pedigree, distrust, positions):
                 s2.positions, s2.ped, s2.reads = list(positions), pedigree, all_reads
                 seen["dp_positions"] = list(positions)
+                for smp in pedigree.samples:
+                    seen["dp"][smp] = list(positions)
                 seen["dp_reads"] = [(r.name, [v.position for v in r]) for r in all_reads]
 
             def get_super_reads(s2):
@@ -643,7 +657,7 @@ class PedGenetic(SubCheck):
 
         tmp = tempfile.mkdtemp(prefix="c05-", dir="/var/tmp")
         ped_path = os.path.join(tmp, "ped.txt")
-        open(ped_path, "w").write("fam1 c f m 0 1\n")
+        open(ped_path, "w").write("fam1 c f m 0 1\n" + ("fam2 c2 f2 m2 0 1\n" if fam2 else ""))
         patches = dict(VcfReader=VcfReaderStub, PhasedVcfWriter=WriterStub, PhasedInputReader=InputReaderStub, PedigreeDPTable=DPStub, Pedigree=PedStub,
                        readselection=lambda rs, cov, preferred_source_ids=None, bridging=True: set(range(len(rs))))
         saved = {k: phase.__dict__.get(k) for k in patches}
@@ -663,6 +677,7 @@ class PedGenetic(SubCheck):
             shutil.rmtree(tmp, ignore_errors=True)
         e.out("dp_positions", seen["dp_positions"])
         e.out("components_of_child", sorted((seen["components"] or {}).get("c", {}).items()))
+        e.out("dp_per_sample", sorted(seen["dp"].items()))
         ctx = lambda: dict(genotypes=rows, reads=pats, positions_handed_to_solver=seen["dp_positions"], components=seen["components"], exception=exc)
         e.check(exc is None, "run_whatshap raised on a trio", ctx)
         covered = set()
@@ -672,32 +687,39 @@ class PedGenetic(SubCheck):
                 covered.update(span)
         if all(p == "none" for p in pats.values()):
             e.cover("no read at all on the chromosome")
-        wanted = []
-        for v in range(nvar):
-            gf, gm, gc = GT[rows[v]["f"]], GT[rows[v]["m"]], GT[rows[v]["c"]]
-            consistent = any(sorted((a, b)) == sorted(gc) for a in gf for b in gm)
-            if not consistent:
-                e.cover("Mendelian conflict variant present")
-                continue
-            if rows[v]["c"] == "0/1" and (rows[v]["f"] != "0/1" or rows[v]["m"] != "0/1"):
-                wanted.append(positions[v])
+        wanted = []  # (father, mother, child, position)
+        for fa, mo, ch in families:
+            for v in range(nvar):
+                gf, gm, gc = GT[rows[v][fa]], GT[rows[v][mo]], GT[rows[v][ch]]
+                consistent = any(sorted((a, b)) == sorted(gc) for a in gf for b in gm)
+                if not consistent:
+                    e.cover("Mendelian conflict variant present")
+                    continue
+                if rows[v][ch] == "0/1" and (rows[v][fa] != "0/1" or rows[v][mo] != "0/1"):
+                    wanted.append((fa, mo, ch, positions[v]))
+                    if fam2:
+                        other = [t for t in families if t[2] != ch][0]
+                        og = [GT[rows[v][x]] for x in other]
+                        if not any(sorted((a, b)) == sorted(og[2]) for a in og[0] for b in og[1]):
+                            e.cover("variant consistent in one family, conflicting in the other")
         # variants the run retains (consistent, heterozygous in some member) and that are homozygous in some member
-        hom_retained = [positions[v] for v in range(nvar) if any(sorted((a, b)) == sorted(GT[rows[v]["c"]]) for a in GT[rows[v]["f"]] for b in GT[rows[v]["m"]])
-                        and any(rows[v][s] == "0/1" for s in members) and any(rows[v][s] != "0/1" for s in members)]
+        fa, mo, ch = families[0]
+        hom_retained = [positions[v] for v in range(nvar) if any(sorted((a, b)) == sorted(GT[rows[v][ch]]) for a in GT[rows[v][fa]] for b in GT[rows[v][mo]])
+                        and any(rows[v][s] == "0/1" for s in (fa, mo, ch)) and any(rows[v][s] != "0/1" for s in (fa, mo, ch))]
         if len(hom_retained) == 1:
             e.cover("exactly one variant homozygous in a family member")
         if len(hom_retained) >= 2:
             e.cover("two such variants")
-        for p in wanted:
+        for fa, mo, ch, p in wanted:
             if p in covered:
                 e.cover("variant covered by a read")
             else:
                 e.cover("read-less variant with a homozygous parent")
-            e.check(seen["dp_positions"] is not None and p in seen["dp_positions"], "a child-heterozygous variant with a homozygous parent is not handed to the solver (it stays unphased although genetic haplotyping is on)",
-                    lambda p=p: dict(ctx(), position=p, covered_by_a_read=p in covered))
-            comp = (seen["components"] or {}).get("c", {})
-            e.check(p in comp, "a child-heterozygous variant with a homozygous parent gets no phase set for the child", lambda p=p: dict(ctx(), position=p, covered_by_a_read=p in covered))
-            e.check(p in ((seen["superreads"] or {}).get("c") or []), "a child-heterozygous variant with a homozygous parent is missing from the child's super reads", lambda p=p: dict(ctx(), position=p))
+            e.check(p in (seen["dp"].get(ch) or []), "a child-heterozygous variant with a homozygous parent is not handed to the solver (it stays unphased although genetic haplotyping is on)",
+                    lambda p=p, ch=ch: dict(ctx(), position=p, child=ch, covered_by_a_read=p in covered))
+            comp = (seen["components"] or {}).get(ch, {})
+            e.check(p in comp, "a child-heterozygous variant with a homozygous parent gets no phase set for the child", lambda p=p, ch=ch: dict(ctx(), position=p, child=ch, covered_by_a_read=p in covered))
+            e.check(p in ((seen["superreads"] or {}).get(ch) or []), "a child-heterozygous variant with a homozygous parent is missing from the child's super reads", lambda p=p, ch=ch: dict(ctx(), position=p, child=ch))
 
     def classify(self, shape, v):
         return "ped_genetic:%s:covered=%s" % (v["msg"], (v.get("info") or {}).get("covered_by_a_read"))
